@@ -6,6 +6,7 @@
    S <init> <data> <k>           two calls: first k bytes, then the rest with the value carried over
    A <init> <data>               every split point 0..n (n+1 results)
    P <init> <data> <k1> <k2>     three calls (0..k1, k1..k2, k2..n)
+   X <init>                      256 one-byte messages 00..ff from init (every table index once)
    R <w> <x>                     a_u<w>_rev
    H <b|s> <init> <data>         a_hash_bkdr_ / a_hash_sdbm_
    K <b|s> <init> <data> <k>     hash in two pieces
@@ -112,6 +113,11 @@ int main(void)
             a_u64 poly = strtoull(tok[3], NULL, 16);
             cur_w = w;
             cur_l = l;
+            /* poison first: an entry the generator does not write must not look right by accident */
+            memset(t8, 0xA5, sizeof(t8));
+            memset(t16, 0xA5, sizeof(t16));
+            memset(t32, 0xA5, sizeof(t32));
+            memset(t64, 0xA5, sizeof(t64));
             printf("T %d %c %" PRIx64, w, l ? 'l' : 'm', poly);
             switch (w)
             {
@@ -192,6 +198,21 @@ int main(void)
             }
             printf("\n");
             free(p);
+            break;
+        }
+        case 'X':
+        {
+            unsigned int b;
+            a_u64 init = strtoull(tok[1], NULL, 16);
+            printf("X");
+            for (b = 0; b < 256; ++b)
+            {
+                unsigned char *q = (unsigned char *)malloc(1);
+                q[0] = (unsigned char)b;
+                printf(" %" PRIx64, crc_call(q, 1, init));
+                free(q);
+            }
+            printf("\n");
             break;
         }
         case 'R':
